@@ -45,6 +45,14 @@ def run(chk):
                    % ([[b(v) for v in t] for t in e["arrivals1"]], [(b(p[0]), b(p[1])) for p in e["p1"]["pipelines"]], e["p1"]["routed"],
                       [b(d) for d in e["dirs"]], [(b(p[0]), b(p[1])) for p in e["p2"]["recovered"]], [(b(p[0]), b(p[1])) for p in e["p2"]["routedTo"]]),
                    {"event.json": e})
+    # end-to-end slice: the tag on the wire (Forward messages, Datadog ddtags) through the real pipeline starter, serializers and
+    # chunk makers is the template's expansion of the record's own key values - not the pipeline id, not another key set's tag
+    from checks import agcommon as A
+    words = ("refuse-then-healthy", "spill-then-restart", "datadog-healthy", "second-output-down-then-restart", "singleton-faults-then-restart", "main-path-stop-healthy")
+    escripts = [dict(x, keys=3) if x["id"] == "refuse-then-healthy" else x for x in A.stories() if x["id"] in words]
+    ne, ee, reje, consts = A.run_scripts(chk, escripts, ("P01",), "c06e")
+    A.handle(chk, reje, ("P01",), "c06e", consts)
+    chk.cov["e2e_tag_histories"] = ne
     chk.cov.update({"states": r0.get("distinct", 0) + r["states"], "transitions": r0.get("generated", 0) + r["states"],
                     "traces_validated_against_impl": r["events"], "evaluations": r["events"], "distinct_nontrivial": r["cases"], "exhaustive": True,
                     "mc_runs": [{"cfg": r0["cfg"], "distinct": r0.get("distinct"), "ok": True}],
